@@ -411,7 +411,7 @@ mod proofs {
         let b = ascii_window();
         let s: usize = kani::any();
         let e: usize = kani::any();
-        kani::assume(s <= 1 && e < W);
+        kani::assume(s <= 2 && e < W);
         kani::assume(is_word_lexeme(&b, s, e));
         let c: char = kani::any();
         let idx = e; // Inv: the end marker is the byte index of the next character
@@ -422,6 +422,11 @@ mod proofs {
             step.out = ROut::Go(RState::Ident(s, e + 1));
         } else {
             ref_flush_word(&b, s, e, &mut step);
+            // C16: which token a word becomes depends on the word alone, never on the (arbitrary) text
+            // in front of it (up to two arbitrary ASCII bytes here, e.g. `::`)
+            if r.is_ok() && t.out.len() >= 1 {
+                assert!(tok_matches(&t.out[0], &step.toks[0], &b), "C16 token for a word depends on the text before it");
+            }
             ref_main(c, idx, &mut step);
         }
         // C16: whitespace flushes exactly the pending token
@@ -444,7 +449,7 @@ mod proofs {
         let b = ascii_window();
         let s: usize = kani::any();
         let e: usize = kani::any();
-        kani::assume(s <= 1 && e <= W);
+        kani::assume(s <= 2 && e <= W);
         kani::assume(is_word_lexeme(&b, s, e));
         // end of input: the source ends where the lexeme ends
         let mut t = Tokenizer { src: &as_str(&b)[..e], out: Vec::with_capacity(2), state: State::Ident(ByteIndex(s), ByteIndex(e)) };
@@ -813,6 +818,8 @@ mod proofs {
     attribute_finish_harness!(finish_attribute_mismatch, 1, b"a(])");
     attribute_finish_harness!(finish_attribute_mismatch_curly, 2, b"{x)]");
     attribute_finish_harness!(finish_attribute_wrong_final, 1, b"ab}");
+    attribute_finish_harness!(finish_attribute_arrow, 1, b"x->y]");
+    attribute_finish_harness!(finish_attribute_angles_crossed, 1, b"a<(b>)<=c]");
     attribute_finish_harness!(finish_attribute_multibyte, 1, "d=\u{e9}\u{4e2d}\u{1f600}]".as_bytes());
 
     static mut FINISH_COUNT: u32 = 0;
